@@ -74,6 +74,7 @@ type fnCtx struct {
 	loopDepth int
 	lenBound  map[string]int // slices whose length bounds an enclosing three-clause loop
 	inClosure bool
+	trace     string // entries: name of the hidden trace variable (the last result), see observe
 	sig       *FuncSig
 	pure      bool
 	labels    map[string]bool
@@ -427,7 +428,7 @@ func (g *G) genHelper(i int) {
 		pro = g.prologue(hsc)
 	}
 	rest := g.stmts(hsc, uReturn, 1+g.pick("hstmts", g.cfg.MaxStmts), g.cfg.MaxDepth)
-	body := append(append(pro, unusedFixups(hsc)...), rest...)
+	body := append(append(pro, g.unusedFixups(hsc)...), rest...)
 	g.finishFn(body, false)
 	g.helpers = append(g.helpers, sig)
 }
@@ -548,11 +549,23 @@ func (g *G) genEntry(i int) {
 	for j := 0; j < nr; j++ {
 		sig.Results = append(sig.Results, g.resultTy("eresty"))
 	}
+	traced := g.chance("traced", 75)
+	if traced {
+		sig.Results = append(sig.Results, TU64)
+	}
 	g.newFn(sig, false)
 	top := &scope{params: true}
-	pro := g.prologue(top)
+	var pro []string
+	if traced {
+		// hidden from the scope: only observe() and the return statements touch it
+		g.fn.trace = "zt"
+		g.fn.names["zt"] = true
+		g.label("traced-entry")
+		pro = append(pro, "var zt uint64 = 0")
+	}
+	pro = append(pro, g.prologue(top)...)
 	rest := g.stmts(top, uReturn, 2+g.pick("estmts", g.cfg.MaxStmts), g.cfg.MaxDepth)
-	body := append(append(pro, unusedFixups(top)...), rest...)
+	body := append(append(pro, g.unusedFixups(top)...), rest...)
 	g.finishFn(body, true)
 }
 
